@@ -93,6 +93,29 @@ fn generate_thread_local_branch(
     }
 }
 /// Check if max_memory is None by comparing the token stream
+/// Verification hook H1 (cargo feature `verif`, add-only): a yield point before a lock acquisition in
+/// generated code, plus (when the guard is bound by `let`) a marker reporting its release.
+fn verif_yield(site: u32, lock_ident: &syn::Ident, is_rwlock: bool, held: bool) -> TokenStream2 {
+    if !cfg!(feature = "verif") {
+        return quote! {};
+    }
+    let _ = is_rwlock;
+    let hold = if held {
+        quote! { let _verif_held = cachelito_core::verif::hold(cachelito_core::verif::addr_of(&*#lock_ident)); }
+    } else {
+        quote! {}
+    };
+    quote! {
+        cachelito_core::verif::yield_point(
+            #site,
+            cachelito_core::verif::addr_of(&*#lock_ident),
+            cachelito_core::verif::Acq::Exclusive,
+            &|| !#lock_ident.is_locked(),
+        );
+        #hold
+    }
+}
+
 /// Verification hook H2 (cargo feature `verif`, add-only): registers, for the global cache of this
 /// function, closures that dump its entries/queue and shift the entries' birth times.
 fn verif_global_registration(
@@ -267,6 +290,10 @@ fn generate_global_branch(
     let cache_condition = generate_cache_condition(&attrs.cache_if, has_max_memory, is_result);
     let verif_registration =
         verif_global_registration(cache_ident, order_ident, fn_name_str, has_max_memory);
+    let verif_y_clear_order = verif_yield(5001, order_ident, false, true);
+    let verif_y_clear_map = verif_yield(5002, cache_ident, true, false);
+    let verif_y_cond_order = verif_yield(5003, order_ident, false, true);
+    let verif_y_cond_map = verif_yield(5004, cache_ident, true, true);
 
     // ...existing code...
 
@@ -296,7 +323,9 @@ fn generate_global_branch(
                     cachelito_core::InvalidationRegistry::global().register_callback(
                         #fn_name_str,
                         move || {
+                            #verif_y_clear_order
                             let mut order_write = #order_ident.lock();
+                            #verif_y_clear_map
                             #cache_ident.write().clear();
                             order_write.clear();
                         }
@@ -318,7 +347,9 @@ fn generate_global_branch(
                 cachelito_core::InvalidationRegistry::global().register_invalidation_callback(
                     #fn_name_str,
                     move |check_fn: &dyn Fn(&str) -> bool| {
+                        #verif_y_cond_order
                         let mut order_write = #order_ident.lock();
+                        #verif_y_cond_map
                         let mut map_write = #cache_ident.write();
 
                         // Collect keys to remove based on check function
